@@ -134,7 +134,10 @@ def extract(repo):
     guard = re.search(r"if\s*\(\s*rindex\s*<\s*0\s*\)|if\s*\(\s*rindex\s*==\s*-1\s*\)|if\s*\(\s*-1\s*==\s*rindex\s*\)", rtc[:k] if k >= 0 else rtc)
     skip_missing = bool(guard)
     cai = _body(rh, r"void\s+checkAnInvAttr\s*\([^)]*\)\s*\{")
-    per_attr = bool(re.search(r"_referentInstances\.clear\(\)", cai)) or "_referentInstances" not in cai
+    mloop = re.search(r"referentInstances_t::iterator\s+insts\s*=\s*(\w+)\.begin\(\)", cai)
+    if not mloop:
+        raise ValueError("checkAnInvAttr: candidate loop not recognised")
+    per_attr = mloop.group(1) != "_referentInstances"
     liff = _body(rh, r"void\s+loadInstIFFreferent\s*\([^)]*\)\s*\{")
     if "inverted_attr_()->IsAggrType()" in liff:
         aggr_by_inverse = False
@@ -145,8 +148,8 @@ def extract(repo):
     ai = _body(rh, r"int\s+attrIndex\s*\([^)]*\)\s*\{")
     by_desc = "getADesc()" in ai and "Owner().Name()" not in ai
     deferred = not re.search(r"_instancesLoaded\.insert[^}]*lazyRefs\s+lr\s*\(", li, re.S)
-    fresh_aggr = bool(re.search(r"iAstruct\s*&", re.search(r"void\s+loadInstIFFreferent\s*\(([^)]*)\)", rh).group(1))) or \
-        "invAttr( _inst, ia )" in liff or "getInvAttr" in liff
+    params = re.search(r"void\s+loadInstIFFreferent\s*\(([^)]*)\)", rh).group(1)
+    fresh_aggr = not re.search(r"iAstruct\s+\w+", params)     # a by-value iAstruct parameter is a stale copy
 
     out = ["-- GENERATED by tools/extract.d/lazy.py from src/cllazyfile/*.cc, lazyRefs.h, include/cllazyfile/*.h",
            "namespace StepModel.Generated", "",
